@@ -309,8 +309,37 @@ func genScenario(rng *rand.Rand, kind string) *Scn {
 	}
 	if kind != "timeout" {
 		shortenForRestarters(s)
+		longBackoffs(rng, s, 2)
 	}
 	return s
+}
+
+// promptBoundMs: the monitor's reading of "promptly" for a scenario (see monitor.go): half the stop timeout, at least 1.5 s.
+func promptBoundMs(s *Scn) int {
+	b := promptUs / 1000
+	if h := s.StopTimeout / 2; h > b {
+		b = h
+	}
+	return b
+}
+
+// longBackoffs gives (one in `oneIn` of) the service workers that end a run with a plain error or a panic a back-off
+// between the monitor's promptness bound and the stop timeout: what such a worker does between two runs of its
+// function — it waits, counted as a running worker — must be ended by the stop, not waited out. (With the harness'
+// default of 5 ms the wait is over before anybody could notice.)
+func longBackoffs(rng *rand.Rand, s *Scn, oneIn int) {
+	lo, hi := promptBoundMs(s)+500, s.StopTimeout-300
+	if hi <= lo {
+		return
+	}
+	for i := range s.Mods {
+		for j := range s.Mods[i].Items {
+			it := &s.Mods[i].Items[j]
+			if it.Kind == "sw" && (it.Ret == "err" || it.Ret == "panic") && rng.Intn(oneIn) == 0 {
+				it.Backoff = lo + rng.Intn(hi-lo)
+			}
+		}
+	}
 }
 
 // forced two-party orders (finisher vs. stopper) on a single module with two workers and a stop routine
@@ -346,6 +375,77 @@ func genForced(rng *rand.Rand, which string) *Scn {
 		for _, r := range []string{"", "ctxerr", "cancelwrap", "restartnow", "restartwrap", "err", "panic", "restart"} {
 			m.Items = append(m.Items, Item{Kind: "sw", Delay: rng.Intn(6), Ret: r})
 		}
+	case "service-worker-backoff":
+		// Service workers whose function ends with a plain error or a panic — shortly before the stop (they are in
+		// their back-off wait when it begins) or as their answer to the cancellation (they enter it with the context
+		// already cancelled). The back-off is longer than the monitor's promptness bound; mostly shorter than the stop
+		// timeout (variant 2: longer, so that waiting it out means waiting out the stop timeout).
+		switch rng.Intn(4) {
+		case 0:
+			s.StopTimeout = 6000
+		case 1:
+			s.StopTimeout = 4000
+		default:
+			s.StopTimeout = 3000
+		}
+		lo := promptBoundMs(s) + 500
+		bo := func() int {
+			if s.StopTimeout == 3000 && rng.Intn(4) == 0 {
+				return 4000 + rng.Intn(1000)
+			}
+			return lo + rng.Intn(s.StopTimeout-300-lo)
+		}
+		m.StopFn = []string{"", "ok", "ok", "panic"}[rng.Intn(4)]
+		if m.StopFn != "" {
+			m.StopDelay = rng.Intn(15)
+		}
+		n := 1 + rng.Intn(3)
+		for k := 0; k < n; k++ {
+			it := Item{Kind: "sw", Ret: []string{"err", "err", "panic"}[rng.Intn(3)], Backoff: bo()}
+			if rng.Intn(2) == 0 {
+				// fails on its own a few ms after it was started
+				it.Self, it.Delay = true, rng.Intn(12)
+			} else {
+				it.Delay = rng.Intn(25)
+			}
+			if rng.Intn(5) == 0 {
+				it.At = "start"
+			}
+			m.Items = append(m.Items, it)
+		}
+		if rng.Intn(2) == 0 {
+			m.Items = append(m.Items, Item{Kind: []string{"w", "mh", "tp", "sh"}[rng.Intn(4)], Delay: rng.Intn(30)})
+		}
+		switch rng.Intn(3) {
+		case 1:
+			s.YieldPm, s.YieldMaxUs = 200, 300
+		case 2:
+			s.YieldPm, s.YieldMaxUs = 500, 1200
+		}
+		switch rng.Intn(3) {
+		case 0:
+			// a dependency that has to wait for the module with the service workers
+			dep := Mod{Deps: []int{}, StopFn: "ok"}
+			m.Deps = []int{0}
+			s.Mods = []Mod{dep, m}
+			s.Script = []string{"start", "work 0", fmt.Sprintf("sleep %d", rng.Intn(25)), "shutdown", "late"}
+		case 1:
+			// stopped by a management pass, started again (the service workers of the start routine too), shut down
+			s.Mgmt, s.NoNotify = true, true
+			m.Enabled = true
+			for j := range m.Items {
+				if m.Items[j].At == "" && rng.Intn(2) == 0 {
+					m.Items = append(m.Items, m.Items[j])
+					m.Items[len(m.Items)-1].Cycle = 1
+				}
+			}
+			s.Mods = []Mod{m, {Deps: []int{}, Enabled: true}}
+			s.Script = []string{"start", "work 0", fmt.Sprintf("sleep %d", rng.Intn(25)), "disable 0", "manage", "enable 0", "manage", "work 1", "shutdown", "late"}
+		default:
+			s.Mods = []Mod{m}
+			s.Script = []string{"start", "work 0", fmt.Sprintf("sleep %d", rng.Intn(25)), "shutdown", "late"}
+		}
+		return s
 	case "stopfn-last":
 		m.StopDelay = 40
 		m.Items = []Item{{Kind: "w", Delay: 0}, {Kind: "sh", Delay: 0}}
@@ -618,10 +718,13 @@ func genLifecycle(rng *rand.Rand, which string) *Scn {
 		s.Script = []string{"start", "work 0", "disable 0", "manage", "obs", "enable 0", "manage", "obs", "work 1", "shutdown", "late"}
 	}
 	shortenForRestarters(s)
+	if which != "restart-after-timeout" {
+		longBackoffs(rng, s, 2)
+	}
 	return s
 }
 
-var forcedKinds = []string{"service-worker-answers", "self-finishers", "stopper-held-before-stopfn", "two-finishers-race-cas",
+var forcedKinds = []string{"service-worker-answers", "service-worker-backoff", "self-finishers", "stopper-held-before-stopfn", "two-finishers-race-cas",
 	"new-work-during-stop", "stopfn-last", "stopfn-nil-stopper-completes"}
 
 type job struct {
@@ -816,6 +919,39 @@ func mutateTrace(rng *rand.Rand, lines []string) []hxlib.Case {
 				mk("drop-"+act, del(i))
 				break
 			}
+		}
+	}
+	// a service worker that entered its back-off wait while the module was stopping (its function answered the
+	// cancellation with an error / a panic) is run again: a copy of its last function entry right after the return
+	for _, i := range find("swReturn") {
+		f := strings.Fields(body[i])
+		if !strings.Contains(body[i], " cls=b ") || len(f) < 6 {
+			continue
+		}
+		mod, g := f[1], f[len(f)-2]
+		stopping, enter := false, -1
+		for k := 0; k < i; k++ {
+			fk := strings.Fields(body[k])
+			if len(fk) < 4 || fk[0] != "e" || fk[1] != mod {
+				continue
+			}
+			switch fk[2] {
+			case "sFlag":
+				stopping = true
+			case "startBegin":
+				stopping = false
+			case "workEnter":
+				if fk[len(fk)-2] == g {
+					enter = k
+				}
+			}
+		}
+		if stopping && enter >= 0 {
+			b := append([]string{}, body[:i+1]...)
+			b = append(b, body[enter])
+			b = append(b, body[i+1:]...)
+			mk("rerun-after-late-backoff", b)
+			break
 		}
 	}
 	if ix := find("dec"); len(ix) > 0 {
